@@ -108,14 +108,14 @@ theorem finishMid_status (w : World) (z : Pid) (stopped : Bool) (q : Pid) :
 theorem tgt_finishMid {st : Pid → Status} {w : World} (h : TgtRun st w) (z : Pid) (stopped : Bool) :
     TgtRun st (finishMid w z stopped) := by
   unfold finishMid; split
-  · exact ec_dropResources (tgt_closed st) internal_loud.res _ _
-      (ec_cancelAwaiteds (tgt_closed st) internal_loud.event internal_loud.res _ _ h)
-  · exact ec_cancelAwaiteds (tgt_closed st) internal_loud.event internal_loud.res _ _
-      (ec_dropResources (tgt_closed st) internal_loud.res _ _ h)
+  · exact ec_dropResources (tgt_closed st) ⟨internal_loud.res, internal_loud.cond⟩ _ _
+      (ec_cancelAwaiteds (tgt_closed st) internal_loud.event ⟨internal_loud.res, internal_loud.cond⟩ _ _ h)
+  · exact ec_cancelAwaiteds (tgt_closed st) internal_loud.event ⟨internal_loud.res, internal_loud.cond⟩ _ _
+      (ec_dropResources (tgt_closed st) ⟨internal_loud.res, internal_loud.cond⟩ _ _ h)
 
 theorem finishMid_silent (w : World) (z : Pid) (stopped : Bool) : cnt (isSilentFor z) (finishMid w z stopped) = 0 := by
   unfold finishMid; split
-  · have := ec_dropResources (silentLe_closed z (cancelAwaiteds w z)) internal_loud.res (cancelAwaiteds w z) z
+  · have := ec_dropResources (silentLe_closed z (cancelAwaiteds w z)) ⟨internal_loud.res, internal_loud.cond⟩ (cancelAwaiteds w z) z
       (Nat.le_refl _)
     rw [cancelAwaiteds_silent] at this
     omega
@@ -275,7 +275,7 @@ theorem silent_execCmd {w : World} (hs : Silent w) (hh : HInv w) (hw : WInv w) (
             apply ec_grab (tgt_closed _)
             apply tgt_sched_run _ aPreempt (victim + 1) sigPreempted _ _ (by omega) (by simpa using hvr)
             apply ec_mk (tgt_closed _)
-            apply ec_cancelAwaiteds (tgt_closed _) internal_loud.event internal_loud.res
+            apply ec_cancelAwaiteds (tgt_closed _) internal_loud.event ⟨internal_loud.res, internal_loud.cond⟩
             exact ec_removeHeld (tgt_closed _) _ _ _ hs
           · ei_peel2 (tgt_closed _) internal_loud hs 12
   by_cases h8 : ∃ q v, c = .prioSet q v
